@@ -199,40 +199,118 @@ let handle_push fields impl =
      | Panic -> (Some "panic", []))
   | _ -> (Some "driver: bad push line", [])
 
-(* content lookup: cl <npeers> <answers> | ok <started> <outcome>
-     answers  per peer 1..n:  c<hex> content / e<idx,idx> closer nodes / x error (no such node listening) / s silent
-     started  peers whose FINDCONTENT handler ran, in order;  outcome = found:<hex> or notfound *)
+(* content lookup:
+     cl <npeers> <answers> <table>:<delays> <kseed> <target> <ids> <scan> | ok <events> <outcome>
+   TRACE level: the lookup underneath ContentLookup must be a run of the model (same search as for node lookups, with
+   ans p = the closer nodes p returns, nothing for content / errors): every peer the model queries was queried (has a
+   T event), no query was observed (S) before the answer (A) that caused it, the set of queried peers is exactly the
+   model's, cancellation only once a content holder has been queried, never in a not-found run.
+   OUTCOME level only: which of several content holders wins (the CAS order is not observable), and found / not-found
+   = the model's cwork fold over the queried peers. *)
 let handle_cl fields impl =
   match fields with
-  | [_; _n; answers; _sched] ->
+  | [_; _n; answers; _sched; _kseed; target; universe; scan] ->
     let ans = Array.of_list ("" :: split ';' answers) in
+    let np = Array.length ans in
+    let is_content i = i >= 1 && i < np && starts ans.(i) "c" in
+    let content_of i = String.sub ans.(i) 1 (String.length ans.(i) - 1) in
+    let idh = Array.of_list (split ',' universe) in
+    let nn = Array.length idh in
+    let ids = Array.map n_hex idh in
+    let back = Hashtbl.create 64 in
+    Array.iteri (fun i h -> Hashtbl.replace back h i) idh;
+    let pad s = String.make (64 - String.length s) '0' ^ s in
+    let to_idx (x : n) = match Hashtbl.find_opt back (pad (Util.hex_of_n (Obj.magic x))) with Some i -> i | None -> 999999 in
+    let key = xkey (n_hex target) in
+    let tbl_n = List.map (fun i -> ids.(i)) (idxs scan) in
+    let ans_of i : n option list =
+      if i >= 1 && i < np && starts ans.(i) "e" then
+        List.filter_map (fun j -> if j >= 0 && j < nn then Some (Some ids.(j)) else None) (idxs (String.sub ans.(i) 1 (String.length ans.(i) - 1)))
+      else [] in
+    if starts impl "err timeout" then (Some "ok", ["lookup-did-not-terminate content-lookup " ^ impl]) else
     (match String.split_on_char ' ' impl with
-     | ["ok"; started; outcome] ->
-       let st = idxs started in
-       let contents = List.filter_map (fun i ->
-         if i >= 1 && i < Array.length ans && starts ans.(i) "c" then Some (String.sub ans.(i) 1 (String.length ans.(i) - 1)) else None) st in
-       (* model: the workers of the queried peers run in some order; replay cwork over them *)
-       let cans (p : n) : canswer =
-         let i = Util.int_of_n (Obj.magic p) in
-         if i >= 1 && i < Array.length ans && starts ans.(i) "c"
-         then AContent (Obj.magic (Util.bytes_of_hex (String.sub ans.(i) 1 (String.length ans.(i) - 1))))
-         else AError in
-       let final = List.fold_left (fun s i -> cwork cans s (Obj.magic (Util.n_of_int i))) (cinit (Obj.magic (Util.n_of_int 0))) st in
-       let model_found = match content_result final with Some _ -> true | None -> false in
+     | ["ok"; evs; outcome] ->
+       let events = List.map (fun e ->
+         let k = int_of_string (String.sub e 1 (String.length e - 1)) in (e.[0], k)) (split ',' evs) in
+       let posS = Array.make nn (-1) and posA = Array.make nn (-1) and posT = Array.make nn (-1) in
+       List.iteri (fun k (c, i) -> if i >= 0 && i < nn then
+         (match c with 'S' -> if posS.(i) < 0 then posS.(i) <- k | 'A' -> if posA.(i) < 0 then posA.(i) <- k
+                     | 'T' -> if posT.(i) < 0 then posT.(i) <- k | _ -> ())) events;
+       let of_kind c = List.filter_map (fun (c', i) -> if c' = c then Some i else None) events in
+       let st = of_kind 'S' and answered = of_kind 'A' and queried = of_kind 'T' in
+       (* ---- monitors on the implementation's log ---- *)
        let mons = ref [] in
-       let dup = List.length (List.sort_uniq compare st) <> List.length st in
-       if dup then mons := "peer-asked-twice content-lookup" :: !mons;
-       if List.mem 0 st then mons := "self-asked content-lookup" :: !mons;
-       (if starts outcome "found:" then begin
-          let c = String.sub outcome 6 (String.length outcome - 6) in
-          if not (List.mem c contents) then mons := ("content-not-from-a-peer returned " ^ c) :: !mons
-        end else if contents <> [] then mons := "content-missed a queried peer answered with content, lookup says not found" :: !mons);
-       (* the model's verdict: found iff some queried peer had content; which one wins is the scheduler's choice *)
-       let m = if model_found then (if starts outcome "found:" && List.mem (String.sub outcome 6 (String.length outcome - 6)) contents
-                                    then impl else "ok " ^ started ^ " found:<one-of-the-answers>")
-               else "ok " ^ started ^ " notfound" in
-       (Some m, List.rev !mons)
-     | _ when starts impl "err timeout" -> (Some "ok", ["lookup-did-not-terminate content-lookup " ^ impl])
+       let add m = if not (List.mem m !mons) then mons := m :: !mons in
+       let has_dup l = List.length (List.sort_uniq compare l) <> List.length l in
+       if has_dup st || has_dup queried then add "peer-asked-twice content-lookup";
+       if List.mem 0 st || List.mem 0 queried then add "self-asked content-lookup";
+       let infl = ref 0 in
+       List.iter (fun (c, _) -> (match c with 'S' -> incr infl | 'A' -> decr infl | _ -> ());
+                   if !infl > 3 then add "more-than-alpha-in-flight content-lookup") events;
+       let supplied = List.filter_map (fun i -> if is_content i then Some (content_of i) else None) answered in
+       let found_c = if starts outcome "found:" then Some (String.sub outcome 6 (String.length outcome - 6)) else None in
+       (match found_c with
+        | Some c -> if not (List.mem c supplied) then add ("content-not-from-a-peer returned " ^ c)
+        | None -> if supplied <> [] then add "content-missed a queried peer answered with content, lookup says not found");
+       (* ---- trace inclusion ---- *)
+       let nT = List.length (List.sort_uniq compare queried) in
+       let first_fail = ref None in
+       let note s = if !first_fail = None then first_fail := Some s in
+       let budget = ref 200000 in
+       let visited = Hashtbl.create 256 in
+       let terminal (s : lk) =
+         let q = List.map to_idx s.qlog in
+         if List.sort compare q <> List.sort_uniq compare queried then note ("model queried " ^ show_idxs (List.rev q))
+         else begin
+           (* found / not found: cwork over the queried peers (all workers have returned when ContentLookup returns) *)
+           let cans (p : n) : canswer =
+             let i = to_idx p in
+             if is_content i then AContent (Obj.magic (Util.bytes_of_hex (content_of i))) else AError in
+           let order = List.filter (fun i -> List.mem i q) queried in
+           let fin = List.fold_left (fun c i -> cwork cans c ids.(i)) (cinit ids.(0)) order in
+           let holders = List.filter_map (fun i -> if is_content i then Some (content_of i) else None) q in
+           match content_result fin, found_c with
+           | None, None -> raise (Found impl)
+           | Some _, Some c when List.mem c holders -> raise (Found impl)
+           | Some _, _ -> note ("ok " ^ evs ^ " found:<one-of-the-queried-holders>")
+           | None, Some _ -> note ("ok " ^ evs ^ " notfound")
+         end in
+       let rec go (s : lk) (max_a : int) =
+         decr budget;
+         if !budget < 0 then () else
+         match start_queries key tbl_n s with
+         | Ok (s1, more) ->
+           let rec newq l k acc = if k = 0 then acc else match l with x :: r -> newq r (k - 1) (to_idx x :: acc) | [] -> acc in
+           let fresh = newq s1.qlog (List.length s1.qlog - List.length s.qlog) [] in
+           if List.exists (fun q -> q >= nn || posT.(q) < 0 || (posS.(q) >= 0 && posS.(q) < max_a)) fresh then
+             note ("model starts an unobserved or too early query: " ^ show_idxs fresh)
+           else if not more then terminal s1
+           else begin
+             let sig_ = (max_a, List.sort compare (List.map to_idx s1.asked), List.sort compare (List.map to_idx s1.pending),
+                         s1.tpending <> None, List.length s1.seen) in
+             if not (Hashtbl.mem visited sig_) then begin
+               Hashtbl.replace visited sig_ ();
+               let holder_queried = List.exists (fun p -> is_content (to_idx p)) s1.qlog in
+               let cands =
+                 (match s1.tpending with
+                  | Some _ -> [(-1, CTable, max_a)]
+                  | None -> List.map (fun p -> let i = to_idx p in (posT.(i), CReply p, max max_a posA.(i))) s1.pending)
+                 @ (if holder_queried && found_c <> None then [(max_int, CCancel, max_a)] else []) in
+               let cands = List.sort (fun (a, _, _) (b, _, _) -> compare a b) cands in
+               List.iter (fun (_, c, me) ->
+                 match apply_choice key (fun p -> ans_of (to_idx p)) s1 c with
+                 | Ok s2 -> go s2 me
+                 | _ -> note "model: err/panic") cands
+             end
+           end
+         | _ -> note "model: err/panic in start_queries" in
+       let verdict =
+         try go (init ids.(0)) (-1);
+           ignore nT;
+           "no-model-run-matches" ^ (if !budget < 0 then "(search budget exhausted)" else "") ^
+           (match !first_fail with Some o -> "; first candidate: " ^ o | None -> "")
+         with Found o -> o in
+       (Some verdict, List.rev !mons)
      | _ -> (Some "driver: cannot parse cl observable", []))
   | _ -> (Some "driver: bad cl line", [])
 
